@@ -321,6 +321,27 @@ def run(ctx):
     fails = []
     B = Batch(ctx, fails)
     seqs = list(itertools.product((0, 1), repeat=L))
+    # before the first update (and right after an explicit reset) the three accuracies are 0 by definition
+    # (Model/STEPD.lean recentAcc / pastAcc / overallAcc on an empty epoch) and the state is None with empty recommendations
+    for w in (1, 3, 30):
+        try:
+            d0 = make("stepd", (w, 0.05, 0.003))
+            first = (impl_obs(d0, "stepd"),)
+            for e in (1, 0, 1, 1):
+                d0.update(1, 0 if e else 1)
+            d0.reset()
+            first += (impl_obs(d0, "stepd"),)
+        except Exception as ex:
+            first = (("EXC:" + type(ex).__name__,),)
+        want = ("N", "_,_", 0, 0, 0.0, 0.0, 0.0)
+        for j, o in enumerate(first):
+            exp = want if j == 0 else want[:2] + (4,) + want[3:]
+            ctx.case(("stepd-empty-epoch", w, j), True)
+            if o != exp:
+                ctx.fail(signature={"detector": "stepd", "clause": "empty-epoch-observables"},
+                         what="STEPD with no sample in the current epoch: state / recs / counters / accuracies differ from the specification",
+                         detector="stepd", config={"window_size": w}, after=["construction", "4 updates + reset()"][j],
+                         impl=list(o), spec=list(exp))
     configs = {"ddm": [(n, w, d) for n in NS for (w, d) in DDM_MENU],
                "eddm": [(n, w, d) for n in NS for (w, d) in EDDM_MENU],
                "stepd": [(n, w, d) for n in NS for (w, d) in STEPD_MENU if 2 * n <= L]}
